@@ -55,6 +55,20 @@ def _run_structural(ctx):
     r1 = ctx.rule("R1", "effect closure of `gwf status`: no submit/cancel/delete/state mutation reachable; only the no-op submit function")
     preview_closure(ctx, r1, roots["status"], {}, "status")
     gsm = idx.func("gwf.scheduling:get_status_map")
+    # both previews construct the backend, whose initialiser asks the scheduler for the job states: that query must be a query
+    for mod, cname in (("gwf.backends.slurm", "SlurmOps"), ("gwf.backends.sge", "SGEOps"), ("gwf.backends.lsf", "LSFOps"), ("gwf.backends.local", "LocalOps")):
+        ci = idx.cls(f"{mod}:{cname}")
+        m = idx.method(ci, "get_job_states") if ci is not None else None
+        if m is None:
+            continue
+        _v, effs, _u = res.reach(m)
+        bad = sorted({f"{e.kind} at {e.where}" for e in effs if e.kind in ("SCHED_SUBMIT", "SCHED_CANCEL", "FS_DELETE", "LOCAL_SUBMIT", "LOCAL_CANCEL", "LOCAL_SHUTDOWN")})
+        r1.check(not bad, f"{m.module.relpath}::{m.qual}::query-only", "the state query the backend constructor runs only queries",
+                 f"{cname}.get_job_states, which runs whenever a backend is constructed (gwf status, gwf run --dry-run), reaches {bad}: a preview changes the queue", m.where)
+    from .evalhelpers import cached_witness, report_witness
+    from .schedmodel import cluster_witness
+    report_witness(r1, "src/gwf/backends::<X>Ops.get_job_states::scheduler-model", "src/gwf/backends/slurm.py:1", cached_witness(ctx, "cluster", cluster_witness),
+                   "state queries over a job history (errored, purged, finished jobs included) neither submit nor cancel", select=lambda d: "changes the queue" in d)
 
     def submit_funcs(root, bindings):
         """Functions bound to schedule()'s submit_func on any path from root (from the reachability contexts)."""
